@@ -326,6 +326,59 @@ def w_iradon_images(item, seed=0, quick=True):
     return t
 
 
+# ----------------------------------------------------------------------------- alternative spellings
+def w_spellings(item, seed=0):
+    """Legal alternative spellings of the same request (all accepted by the unchanged tree) must give the canonical
+    result; spellings the unchanged tree rejects (theta as list/ndarray, upper-case filter names) are counted only."""
+    torch, R = _lib()
+    N = item
+    t = Tally()
+    th = IRREG
+    imn = make_image(("edge",), N, seed)
+    sn = make_sino(("snoise", 0), N, th, seed)
+    im = torch.tensor(imn, dtype=torch.float32)
+    sg = torch.tensor(sn, dtype=torch.float32)
+    tt = torch.tensor(th, dtype=torch.float32)
+    base_r = R.radon_torch(im, theta=tt).numpy()
+    base_i = R.iradon_torch(sg, theta=tt, filter_name="hann").numpy()
+    ints = [0, 45, 90, 135]
+    variants = {
+        "radon theta float64 tensor": (lambda: R.radon_torch(im, theta=torch.tensor(th, dtype=torch.float64)), base_r),
+        "radon theta integer tensor": (lambda: R.radon_torch(im, theta=torch.tensor(ints)), R.radon_torch(im, theta=torch.tensor([float(a) for a in ints])).numpy()),
+        "radon image [1,N,N]": (lambda: R.radon_torch(im[None], theta=tt), base_r),
+        "radon non-contiguous image": (lambda: R.radon_torch(torch.tensor(np.ascontiguousarray(imn.T), dtype=torch.float32).t(), theta=tt), base_r),
+        "radon positional theta": (lambda: R.radon_torch(im, tt), base_r),
+        "radon image requires_grad": (lambda: R.radon_torch(im.clone().requires_grad_(), theta=tt).detach(), base_r),
+        "iradon theta float64 tensor": (lambda: R.iradon_torch(sg, theta=torch.tensor(th, dtype=torch.float64), filter_name="hann"), base_i),
+        "iradon sinogram [1,A,N]": (lambda: R.iradon_torch(sg[None], theta=tt, filter_name="hann"), base_i),
+        "iradon positional arguments": (lambda: R.iradon_torch(sg, tt, None, "hann"), base_i),
+        "iradon output_size=N": (lambda: R.iradon_torch(sg, theta=tt, filter_name="hann", output_size=N), base_i),
+        "iradon output_size=np.int64(N)": (lambda: R.iradon_torch(sg, theta=tt, filter_name="hann", output_size=np.int64(N)), base_i),
+        "iradon non-contiguous sinogram": (lambda: R.iradon_torch(torch.tensor(np.ascontiguousarray(sn.T), dtype=torch.float32).t(), theta=tt, filter_name="hann"), base_i),
+        "iradon sinogram requires_grad": (lambda: R.iradon_torch(sg.clone().requires_grad_(), theta=tt, filter_name="hann").detach(), base_i),
+        "filter size np.int64": (lambda: R.get_fourier_filter_torch(np.int64(64), "hann"), R.get_fourier_filter_torch(64, "hann").numpy()),
+        "filter dtype float64": (lambda: R.get_fourier_filter_torch(64, "hann", dtype=torch.float64), R.get_fourier_filter_torch(64, "hann").numpy()),
+    }
+    for name, (fn, base) in variants.items():
+        case = {"kind": "spelling", "N": N, "variant": name}
+        t.case(key=case, nontrivial=True)
+        try:
+            out = np.asarray(fn().numpy(), dtype=np.float64)
+        except Exception as ex:
+            t.fail({"relation": "legal_spelling_accepted", "variant": name}, case, f"{name} (N={N}): raised {type(ex).__name__}: {str(ex)[:150]} (the unchanged tree accepts this spelling)")
+            continue
+        e = rel_err(out, np.asarray(base, dtype=np.float64)) if out.shape == np.shape(base) else np.inf
+        if e > TOL:
+            t.fail({"relation": "legal_spelling_gives_canonical_result", "variant": name}, case, f"{name} (N={N}): differs from the canonical spelling by {e:.3e} of max")
+    for name, fn in {"theta as list": lambda: R.radon_torch(im, theta=th), "theta as ndarray": lambda: R.iradon_torch(sg, theta=np.array(th), filter_name="hann"), "filter name 'Hann'": lambda: R.iradon_torch(sg, theta=tt, filter_name="Hann")}.items():
+        try:
+            fn()
+            t.extra["spellings_rejected_on_the_pinned_tree_now_accepted"] += 1
+        except Exception:
+            t.extra["spellings_rejected_as_on_the_pinned_tree"] += 1
+    return t
+
+
 # ----------------------------------------------------------------------------- call histories (hidden state between calls)
 def _call_alphabet(quick):
     calls = [("filter", size, f) for size in (64, 128) for f in FILTERS]
@@ -429,6 +482,7 @@ def run(ctx):
     ctx.pmap(w_radon_images, sizes, chunk=1, label="radon images", seed=ctx.seed, quick=q)
     ctx.pmap(w_iradon_basis, list(itertools.product(ir_basis, FILTERS)), chunk=1, label="iradon delta basis", seed=ctx.seed, quick=q)
     ctx.pmap(w_iradon_images, list(itertools.product(ir_sizes, FILTERS)), chunk=1, label="iradon images", seed=ctx.seed, quick=q)
+    ctx.pmap(w_spellings, [5, 6] if q else [5, 6, 9, 22], chunk=1, label="alternative spellings", seed=ctx.seed)
     calls = _call_alphabet(q)
     ctx.coverage["bounds"]["call_history_alphabet"] = len(calls)
     ctx.coverage["bounds"]["call_history_depth"] = 2 if q else 3
@@ -463,6 +517,9 @@ def replay(ctx, case):
         print(f"  last call after the history: {'differs by %.3e' % e if e is not None else 'agrees'}; alone: {'differs by %.3e' % alone if alone is not None else 'agrees'}")
         if e is not None:
             t.fail({"relation": "result_independent_of_earlier_calls", "last_call": hist[-1][0]}, case, f"history {case['history']}: last call differs from the reference by {e:.3e}")
+    elif k == "spelling":
+        r = w_spellings(case["N"], seed=seed)
+        t.fails = [f for f in r.fails if f["case"].get("variant") == case["variant"]]
     elif k == "iradon_dtype":
         r = w_iradon_images((case["N"], case["filter"]), seed=seed, quick=True)
         t.fails = [f for f in r.fails if f["case"].get("kind") == "iradon_dtype" and f["case"].get("dtype") == case["dtype"]]
